@@ -67,10 +67,57 @@ def lower_returns(stmts, res):
                 out.append(new)
                 return out
             raise NotInlinable("conditional return that does not end its branch")
+        if isinstance(s, ast.Try) and _has_return([s]):
+            # returns inside try / except: each one assigns the result and raises a "done"
+            # flag; what followed the try statement runs only while the flag is down
+            if _has_return(s.finalbody) or any(_in_loop_return(x) for x in [s]):
+                raise NotInlinable("return inside finally / a loop within try")
+            flag = res + "__done"
+            out.append(ast.copy_location(ast.Assign(
+                targets=[ast.Name(id=flag, ctx=ast.Store())], value=ast.Constant(value=False)), s))
+
+            def low(block):
+                lowered = lower_returns(list(block), res)
+                return _mark_done(lowered, res, flag)
+            new = ast.copy_location(ast.Try(
+                body=low(s.body),
+                handlers=[ast.copy_location(ast.ExceptHandler(
+                    type=h.type, name=h.name, body=low(h.body)), h) for h in s.handlers],
+                orelse=low(s.orelse) if s.orelse else [], finalbody=s.finalbody), s)
+            out.append(new)
+            if rest:
+                out.append(ast.copy_location(ast.If(
+                    test=ast.UnaryOp(op=ast.Not(), operand=ast.Name(id=flag, ctx=ast.Load())),
+                    body=lower_returns(list(rest), res), orelse=[]), s))
+            return out
         if isinstance(s, (ast.For, ast.While, ast.Try, ast.With, ast.AsyncFor, ast.AsyncWith)) \
                 and _has_return([s]):
-            raise NotInlinable("return inside a loop / try / with")
+            raise NotInlinable("return inside a loop / with")
         out.append(s)
+    return out
+
+
+def _in_loop_return(try_node):
+    for n in ast.walk(try_node):
+        if isinstance(n, (ast.For, ast.While, ast.AsyncFor)) and _has_return([n]):
+            return True
+    return False
+
+
+def _mark_done(stmts, res, flag):
+    """After every assignment of the result variable (a lowered return) raise the flag."""
+    out = []
+    for st in stmts:
+        for fld in ("body", "orelse"):
+            lst = getattr(st, fld, None)
+            if isinstance(lst, list) and lst and isinstance(lst[0], ast.stmt) and not isinstance(
+                    st, (ast.For, ast.While)):
+                setattr(st, fld, _mark_done(lst, res, flag))
+        out.append(st)
+        if isinstance(st, ast.Assign) and any(isinstance(t, ast.Name) and t.id == res
+                                              for t in st.targets):
+            out.append(ast.copy_location(ast.Assign(
+                targets=[ast.Name(id=flag, ctx=ast.Store())], value=ast.Constant(value=True)), st))
     return out
 
 
@@ -403,9 +450,12 @@ class Inliner(object):
                         if new_stmt is None and not isinstance(res, (ast.Name, ast.Constant)):
                             # the call stood alone: keep evaluating what the helper returned
                             new_stmt = ast.copy_location(ast.Expr(value=res), s)
+                        if new_stmt is not None and isinstance(res, ast.Name):
+                            pre, new_list = _scatter_tuple_result(pre, new_stmt, res.id)
+                        else:
+                            new_list = _split_tuple_assign(new_stmt) if new_stmt is not None else []
                         out.extend(pre)
-                        if new_stmt is not None:
-                            out.extend(_split_tuple_assign(new_stmt))
+                        out.extend(new_list)
                         changed = True
                         self.n_inlined += 1
                         continue
@@ -480,6 +530,60 @@ class Inliner(object):
                 break
         ast.fix_missing_locations(self.tree)
         return self.tree
+
+
+def _scatter_tuple_result(pre, stmt, res):
+    """a, b, c = <res>  where every lowered return assigned a tuple display of that arity to
+    <res>: give each component its own result temporary, so that `a`, `b` and `c` have
+    ordinary per-branch definitions (a = x under the guards of `return x, y, z`)."""
+    if not (isinstance(stmt, ast.Assign) and len(stmt.targets) == 1 and isinstance(
+            stmt.targets[0], ast.Tuple) and isinstance(stmt.value, ast.Name)
+            and stmt.value.id == res and all(isinstance(t, ast.Name) for t in stmt.targets[0].elts)):
+        return pre, _split_tuple_assign(stmt)
+    k = len(stmt.targets[0].elts)
+    sites = []
+
+    def collect(stmts):
+        for st in stmts:
+            if isinstance(st, ast.Assign) and any(isinstance(t, ast.Name) and t.id == res
+                                                  for t in st.targets):
+                sites.append(st)
+            for fld in ("body", "orelse", "finalbody"):
+                lst = getattr(st, fld, None)
+                if isinstance(lst, list) and lst and isinstance(lst[0], ast.stmt):
+                    collect(lst)
+            if isinstance(st, ast.Try):
+                for h in st.handlers:
+                    collect(h.body)
+    collect(pre)
+    real = [st for st in sites if not (isinstance(st.value, ast.Constant) and st.value.value is None)]
+    if not real or not all(isinstance(st.value, ast.Tuple) and len(st.value.elts) == k
+                           and len(st.targets) == 1 for st in real):
+        return pre, _split_tuple_assign(stmt)
+    names = ["%s__i%d" % (res, i) for i in range(k)]
+
+    def rewrite(stmts):
+        out = []
+        for st in stmts:
+            for fld in ("body", "orelse", "finalbody"):
+                lst = getattr(st, fld, None)
+                if isinstance(lst, list) and lst and isinstance(lst[0], ast.stmt):
+                    setattr(st, fld, rewrite(lst))
+            if isinstance(st, ast.Try):
+                for h in st.handlers:
+                    h.body = rewrite(h.body)
+            if st in real:
+                for nm, e in zip(names, st.value.elts):
+                    out.append(ast.copy_location(ast.Assign(
+                        targets=[ast.Name(id=nm, ctx=ast.Store())], value=e), st))
+                out.append(st)  # keep the tuple as well (done flags hang on it)
+            else:
+                out.append(st)
+        return out
+    pre = rewrite(pre)
+    final = [ast.copy_location(ast.Assign(targets=[t], value=ast.Name(id=nm, ctx=ast.Load())), stmt)
+             for t, nm in zip(stmt.targets[0].elts, names)]
+    return pre, final
 
 
 def _split_tuple_assign(stmt):
